@@ -435,6 +435,15 @@ func runC01(c *core.Ctx) {
 			echoProbe(c, s, "redis", "nesting ladder")
 			s.Stop()
 		})
+		if n == 100000 && !c.Thorough() {
+			// the recursive redis parser needs millions of levels to exhaust the 1 GB goroutine stack: also in the quick tier
+			c.Case("ladder/redis/3000000", func() {
+				s := startSvc("redis", "echo-tcp")
+				tcpScenario(c, s, "redis", "nesting", "redis array nested 3000000 deep", [][]byte{[]byte(strings.Repeat("*1\r\n", 3000000) + "$1\r\na\r\n")})
+				echoProbe(c, s, "redis", "nesting ladder")
+				s.Stop()
+			})
+		}
 		c.Case(fmt.Sprintf("ladder/ldap/%d", n), func() {
 			s := startSvc("ldap", "echo-tcp")
 			// nested constructed sequences with indefinite-free definite lengths: build inside-out up to the BER reader's limits
